@@ -164,11 +164,12 @@ def _script(r, client, world, counter):
                 t = add("ld.serialize", {"doc": P(f"doc{i}"), "fmt": fmt})
                 add("ld.deserialize", {"text": t, "fmt": fmt, "expect": P(f"doc{i}")})
         elif g == "files":
-            path = r.choice(["a", "b", "Ω"]) + "." + fmt
+            path = r.choice(["a", "b", "Ω", "a.b", "x.y.z", "net v2"]) + "." + fmt
+            asp = r.random() < 0.3
             k = r.choice(["dump_load", "dump_load", "load", "dump", "put_load"])
             if k == "dump_load":
-                add("ld.dump", {"path": path, "doc": P(f"doc{i}")})
-                add("ld.load", {"path": path})
+                add("ld.dump", {"path": path, "doc": P(f"doc{i}"), "as_path": asp})
+                add("ld.load", {"path": path, "as_path": r.random() < 0.3})
                 if r.random() < 0.4:      # overwrite with a same-size twin and load again (defeats (mtime, size) caches)
                     add("ld.dump", {"path": path, "doc": P(f"doc{i}t")})
                     add("ld.load", {"path": path})
